@@ -37,10 +37,22 @@ def _sorted_call(it) -> tuple[bool, bool]:
     return False, False
 
 
-def shifting_loops(fi: FuncInfo):
+def _scopes(fn):
+    """fn and the functions nested in it (closures are analysed as functions of their own); guard clauses are read
+    as else-branches so `if not c: continue; x += 1` is the same loop as `if c: x += 1`"""
+    from ..inline import else_normal
+
+    fn = else_normal(fn)
+    yield fn
+    for n in ast.walk(fn):
+        if n is not fn and isinstance(n, (ast.FunctionDef, ast.AsyncFunctionDef)):
+            yield n
+
+
+def shifting_loops(fi: FuncInfo, scope=None):
     """Loops whose body (a) compares the loop element with a variable that the body also
     increments/decrements (rank -> index conversion), or (b) pops / inserts by the loop element."""
-    for lp in walk_no_nested(fi.node):
+    for lp in walk_no_nested(scope or fi.node):
         if not isinstance(lp, ast.For):
             continue
         tnames = {x.id for x in ast.walk(lp.target) if isinstance(x, ast.Name)}
@@ -65,9 +77,9 @@ def shifting_loops(fi: FuncInfo):
 
 def check_function(ctx, res: Result, fi: FuncInfo) -> int:
     n = 0
-    for lp, kind in shifting_loops(fi):
+    for scope, lp, kind in [(sc, lp, kind) for sc in _scopes(fi.node) for lp, kind in shifting_loops(fi, sc)]:
         n += 1
-        it = _resolve_iter(fi.node, lp.iter)
+        it = _resolve_iter(scope, lp.iter)
         ok, desc = _sorted_call(it)
         inst = f"{fi.qualname}:for {src(lp.target)} in {src(lp.iter)[:50]}"
         if kind == "pop":
